@@ -111,7 +111,10 @@ fn run_generate(
 
         for path in possible_paths {
             if path.exists() {
-                match GenerateConfig::from_tauri_config(&path) {
+                // Validation happens below, after the command-line flags have been applied:
+                // a flag must be able to override an invalid value of the file, and an
+                // unsupported value that is *not* overridden must be reported, not skipped.
+                match GenerateConfig::from_tauri_config_unvalidated(&path) {
                     Ok(Some(loaded_config)) => {
                         config = loaded_config;
                         config_loaded = true;
